@@ -25,9 +25,19 @@ static void power_law(const std::vector<impedance_t>& z, size_t n, unsigned mult
     }
 }
 
+// absolute scale: the documented closed forms, evaluated in double precision on the documented frequency axis f_i = i f_max/(n-1)
+static void absolute(const std::vector<impedance_t>& z, size_t n, double fmax, double f0, std::complex<double> coeff, double power, const std::string& key, const std::string& kase) {
+    for (size_t i = 1; i <= n / 2; i++) {
+        const std::complex<double> want = coeff * std::pow(i * fmax / f0 / (n - 1.0), power), got(z[i].real(), z[i].imag());
+        if (!(std::abs(got - want) <= 3e-5 * std::abs(want))) { char d[200]; snprintf(d, 200, "sample %zu (f = %.6g f0): %.7g%+.7gi, closed form %.7g%+.7gi", i, i * fmax / f0 / (n - 1.0), got.real(), got.imag(), want.real(), want.imag()); R.violate(key + "/absolute-scale", kase, d); return; }
+    }
+}
+
 static void part_models(const std::vector<size_t>& ns) {
-    const float fmaxs[] = {1e11f, 1e12f, 5e12f}, frevs[] = {1e6f, 2.7e6f, 9e6f};
-    for (size_t n : ns) for (float fmax : fmaxs) for (float frev : frevs) {
+    // frequency ranges from a fraction of the revolution frequency (short axes with a non-integral number of harmonics) to 5 THz
+    const float frevs[] = {1e6f, 2.7e6f, 9e6f};
+    for (size_t n : ns) for (int fi = 0; fi < 7; fi++) for (float frev : frevs) {
+        const float fmax = fi == 0 ? 1e11f : fi == 1 ? 1e12f : fi == 2 ? 5e12f : fi == 3 ? 0.5f * frev : fi == 4 ? 7.9f * frev : fi == 5 ? 25.7f * frev : 185.2f * frev;
         std::string kase = mcx::Desc()("part", "models")("n", n).f("fmax", fmax).f("frev", frev).str();
         if (!R.mine(kase)) continue;
         if (R.out_of_time()) { R.not_completed = kase; return; }
@@ -35,12 +45,17 @@ static void part_models(const std::vector<size_t>& ns) {
             R.eval(kase + " model=freespace", zhash(z.impedance(), kase + "fs"), false);
             if (wellformed(z, n, "C16/FreeSpaceCSR", kase)) {
                 power_law(z.impedance(), n, 8, "C16/FreeSpaceCSR", kase);
+                absolute(z.impedance(), n, fmax, frev, std::complex<double>(306.3, 176.9), 1.0 / 3.0, "C16/FreeSpaceCSR", kase);
                 if (n >= 3 && !(z.impedance()[1].real() > 0 && z.impedance()[1].imag() > 0)) R.violate("C16/FreeSpaceCSR/phase", kase, "first sample not in the first quadrant");
             } }
         for (double s : {1e6, 5.8e7}) for (double xi : {-0.5, 0.0, 2.0}) for (double b : {0.005, 0.016}) {
             ResistiveWall z(n, frev, fmax, physcons::c / frev, s, xi, b);
             R.eval(kase + " model=wall", zhash(z.impedance(), kase + "rw" + mcx::fstr(s) + mcx::fstr(xi) + mcx::fstr(b)), false);
-            if (wellformed(z, n, "C16/ResistiveWall", kase)) power_law(z.impedance(), n, 4, "C16/ResistiveWall", kase);
+            if (wellformed(z, n, "C16/ResistiveWall", kase)) {
+                power_law(z.impedance(), n, 4, "C16/ResistiveWall", kase);
+                const double L = physcons::c / frev;
+                absolute(z.impedance(), n, fmax, frev, std::sqrt(Impedance::Z0 * (1 + xi) * frev / s / M_PI / physcons::c) * L / 2 / b * std::complex<double>(1, -1), 0.5, "C16/ResistiveWall", kase);
+            }
         }
         for (double outer : {0.016, 0.05}) for (double inner : {0.002, 0.01}) {
             CollimatorImpedance z(n, fmax, outer, inner);
@@ -57,7 +72,7 @@ static void part_models(const std::vector<size_t>& ns) {
             else for (size_t i = 0; i < n; i++) if (v[i] != (i < n / 2 ? impedance_t(3.f, -2.f) : impedance_t(0, 0))) { R.violate("C16/ConstImpedance/shape", kase, "sample " + std::to_string(i)); break; }
         }
     }
-    R.bound_done("models: sample counts x 3 f_max x 3 f_rev x {free space, wall(2 conductivities x 3 susceptibilities x 2 radii), collimator(2x2 radii), constant}");
+    R.bound_done("models: sample counts x 7 f_max (0.5 f_rev ... 5 THz) x 3 f_rev x {free space, wall(2 conductivities x 3 susceptibilities x 2 radii), collimator(2x2 radii), constant}");
 }
 
 static void part_plates(const std::vector<size_t>& ns) {
